@@ -1,10 +1,11 @@
 package props
 
 import (
+	"encoding/json"
 	"fmt"
 	"os"
-	"time"
 	"testing"
+	"time"
 
 	"pgregory.net/rapid"
 
@@ -59,7 +60,8 @@ func progCheck(t *testing.T, cfg progCheckCfg) {
 		}
 		if d := time.Since(t0); d > 2*time.Second {
 			col.Class("slow-case(>2s)")
-			fmt.Fprintf(os.Stderr, "SLOW CASE %v (%s):\n%s\n", d, c.Exp.Why, c.Script)
+			cj, _ := json.Marshal(c)
+			fmt.Fprintf(os.Stderr, "SLOW CASE %v (%s):\n%s\nSLOW CASE JSON %s\n", d, c.Exp.Why, c.Script, cj)
 		}
 		switch {
 		case c.Exp.Unspec:
@@ -113,7 +115,7 @@ func TestC06(t *testing.T) {
 		prop: "C06", part: "programs",
 		rule: "random programs with 0-3 user functions (defined before or after use, recursive on a decreasing counter, value-less, wrong arity, unknown function), parameters/locals/loop variables drawn from a pool that also names globals; compared with a reference interpreter with an explicit scope stack on result, host-call sequence, resulting variables, and zero open scopes after the run; non-trivial = >=1 call whose callee binds a name live in the caller/globally or returns from inside a loop; distinct by program text + inputs",
 		opts: func() gen.ProgOpts {
-			return gen.ProgOpts{Depth: scale(3, 4), Block: 3, Funcs: 3, Clash: true, Ternary: true, Switch: true, EarlyRet: true, IncDec: false, ErrStmts: true, NoSqrtFold: true}
+			return gen.ProgOpts{Depth: scale(3, 4), Block: 3, Funcs: 3, Clash: true, Ternary: true, Switch: true, EarlyRet: true, IncDec: false, ErrStmts: true, NoSqrtFold: true, VoidOperand: true}
 		},
 		nontrivial: func(m *lang.Machine, c *Case) bool { return m.Stats.ShadowCalls >= 1 },
 	})
